@@ -160,12 +160,18 @@ type plainStore struct {
 	mu  sync.Mutex
 	m   map[uint][]byte
 	ops int
+	// alias: Load hands out the stored slice itself, as the library's own
+	// in-memory map does
+	alias bool
 }
 
 func newPlainStore() *plainStore { return &plainStore{m: map[uint][]byte{}} }
 func (s *plainStore) Load(key uint) ([]byte, error) {
 	s.mu.Lock()
 	defer s.mu.Unlock()
+	if s.alias {
+		return s.m[key], nil
+	}
 	return clone(s.m[key]), nil
 }
 func (s *plainStore) Save(key uint, v net.Buffers) error {
